@@ -424,6 +424,7 @@ class Domain:
             res = deque()
             res.appendleft(left_index)
             res.appendleft(right_index)
+            self.max_state_index = max(left_index, right_index)
             return res
 
         # exhaust all possible states and
@@ -448,6 +449,8 @@ class Domain:
             last_size - origin_last_coordinate,
         )
 
+        # largest index of a state inside the domain: depending on the pairing it need not be a frontier state
+        max_state_index = -1
         for ks in lazy_indices_product(all_sizes):
             ks_shifted = tuple(ki - origin_last_coordinate for ki in ks)
             outside_states = []
@@ -461,6 +464,10 @@ class Domain:
                 all_states.append(pairing.pair(state_increment))
 
             if not all(outside_states):
+                max_state_index = max(
+                    max_state_index,
+                    max(x for x, y in zip(all_states, outside_states) if not y),
+                )
                 frontier_left_index = next(
                     x for x, y in zip(all_states, outside_states) if not y
                 )
@@ -477,6 +484,7 @@ class Domain:
                     axis_state_index
                 )  # keep the state on the (last) axis
 
+        self.max_state_index = max_state_index
         return frontier_state_indices
 
 
@@ -489,7 +497,7 @@ class StatesManager:
         """
         frontier_states = domain.compute_total_number_of_states_and_frontier()
         self.frontier_states_indices = frontier_states
-        self.max_frontier_indices = max(frontier_states)
+        self.max_frontier_indices = max(max(frontier_states), domain.max_state_index)
         self.domain = domain
         self.origin_coordinates = grid.origin_coordinate
         self.grid = grid
